@@ -12,6 +12,11 @@ from billiard import reduction                    # noqa: E402
 from billiard import util as butil                # noqa: E402
 vos.bind_billiard()
 
+import logging as _logging                        # noqa: E402
+_lg = butil.get_logger()
+_lg.addHandler(_logging.NullHandler())
+_lg.propagate = False
+
 
 class VDupFd:
     """What ``reduction.DupFd`` returns while a virtual child is spawned."""
@@ -71,12 +76,23 @@ class VContext(bctx.BaseContext):
         return 'fork'
 
 
+_fin_keep = set(butil._finalizer_registry)
+
+
+def mark_globals():
+    """Remember which finalizers exist now (they belong to the checker's own
+    interpreter -- billiard shares the stdlib multiprocessing registry)."""
+    _fin_keep.update(butil._finalizer_registry)
+
+
 def reset_billiard_globals():
-    """Undo what an execution leaves in billiard's module state."""
+    """Undo what an execution leaves in billiard's module state.  Only
+    finalizers registered since import / mark_globals() are dropped."""
     import itertools
     bprocess._children.clear()
-    butil._finalizer_registry.clear()
-    butil._afterfork_registry.clear()
+    for k in [k for k in list(butil._finalizer_registry)
+              if k not in _fin_keep]:
+        butil._finalizer_registry.pop(k, None)
     try:
         import billiard.pool as bp
         bp.job_counter = itertools.count()
